@@ -323,7 +323,10 @@ class Conn:
         try:
             self.s.settimeout(10.0)      # (reads set their own, much shorter, timeouts)
             if fds:
-                self.s.sendmsg([data], [(socket.SOL_SOCKET, socket.SCM_RIGHTS, array.array('i', fds))])
+                # descriptors travel with the first byte; a large message needs more than one write
+                n = self.s.sendmsg([data], [(socket.SOL_SOCKET, socket.SCM_RIGHTS, array.array('i', fds))])
+                if n < len(data):
+                    self.s.sendall(data[n:])
             else:
                 self.s.sendall(data)
             return True
@@ -389,6 +392,11 @@ class Conn:
         nf = m.fields.get(F_UNIX_FDS, 0)
         m.fds = self.rfds[:nf]
         del self.rfds[:nf]
+        if self.rfds and not self.rbuf:
+            # descriptors beyond what the message announces, with nothing further read that they could belong to:
+            # they came with this message (reported with it, so that the surplus is visible)
+            m.fds += self.rfds
+            del self.rfds[:]
         return m
 
     def recv(self, timeout=5.0):
